@@ -54,6 +54,9 @@ pub struct JoinTrace {
     pub schedule: Vec<Step>,
     /// further merges (true = left) of the same two sequences, run without watermark ticks
     pub alt_merges: Vec<Vec<bool>>,
+    /// left event i and right event i carry the same id
+    #[serde(default)]
+    pub shared_ids: bool,
 }
 
 pub struct JoinWorld;
@@ -67,6 +70,12 @@ fn win_dur(t: &JoinTrace) -> Duration {
     }
 }
 
+thread_local! {
+    /// the two streams label their events alike (JoinTrace::shared_ids): left event i and right event i carry
+    /// the same id — an order number, a correlation id — and often the same stamp
+    static SHARED_IDS: std::cell::Cell<bool> = const { std::cell::Cell::new(false) };
+}
+
 fn mk_event(side: &str, idx: usize, e: &Ev) -> StreamEvent {
     let mut data = HashMap::new();
     if let Some(k) = e.key {
@@ -75,7 +84,7 @@ fn mk_event(side: &str, idx: usize, e: &Ev) -> StreamEvent {
     data.insert("v".to_string(), Value::Integer(e.payload));
     let mut ev = StreamEvent::with_timestamp("E", data, side, e.ts);
     // the id would otherwise derive from the real nanosecond clock
-    ev.id = format!("{side}{idx}");
+    ev.id = if SHARED_IDS.with(|s| s.get()) { format!("ev{idx}") } else { format!("{side}{idx}") };
     ev
 }
 
@@ -235,7 +244,8 @@ impl Sut {
 }
 
 fn parse_id(id: &str, side: &str) -> Option<usize> {
-    id.strip_prefix(side).and_then(|s| s.parse().ok())
+    let prefix = if SHARED_IDS.with(|s| s.get()) { "ev" } else { side };
+    id.strip_prefix(prefix).and_then(|s| s.parse().ok())
 }
 
 struct Emitted {
@@ -561,6 +571,7 @@ impl World for JoinWorld {
             right,
             schedule,
             alt_merges,
+            shared_ids: rng.chance(1, 4),
         }
     }
 
@@ -569,6 +580,10 @@ impl World for JoinWorld {
     }
 
     fn run(&self, _prop: &str, t: &JoinTrace, obs: &mut Obs) -> Result<(), Violation> {
+        SHARED_IDS.with(|s| s.set(t.shared_ids));
+        if t.shared_ids {
+            obs.count("probe.both_streams_label_their_events_alike");
+        }
         let p = reference(t);
         let has_wm = t.schedule.iter().any(|s| matches!(s, Step::Wm(_)));
         obs.faulty = has_wm;
